@@ -1414,12 +1414,12 @@ class DSAPriv(PrivKey, DSAPub):
         if not self.s2k:
             self.x = MPI(packet)
 
+            if self.s2k.usage == 0:
+                self.chksum = packet[:2]
+                del packet[:2]
+
         else:
             self.encbytes = packet
-
-        if self.s2k.usage in [0, 255]:
-            self.chksum = packet[:2]
-            del packet[:2]
 
     def decrypt_keyblob(self, passphrase):
         kb = super(DSAPriv, self).decrypt_keyblob(passphrase)
@@ -1455,12 +1455,12 @@ class ElGPriv(PrivKey, ElGPub):
         if not self.s2k:
             self.x = MPI(packet)
 
+            if self.s2k.usage == 0:
+                self.chksum = packet[:2]
+                del packet[:2]
+
         else:
             self.encbytes = packet
-
-        if self.s2k.usage in [0, 255]:
-            self.chksum = packet[:2]
-            del packet[:2]
 
     def decrypt_keyblob(self, passphrase):
         kb = super(ElGPriv, self).decrypt_keyblob(passphrase)
